@@ -1687,20 +1687,20 @@ MANIFEST = {
     "design_ref": "DESIGN.md 4/C06",
 }
 FINDINGS = [
-    {"status": "fixed", "key": "z3:nat-binders-not-relativised", "commit": "fixes/C06-1.patch",
+    {"status": "fixed", "key": "z3:nat-binders-not-relativised", "commit": "ad9049a",
      "what": "z3wrapper.solve(~(!x::nat. 0 <= x)) and solve(?x::nat. x < 0) returned True: nat binders ranged over all integers"},
-    {"status": "fixed", "key": "z3:of_nat-of-bound-variable", "commit": "fixes/C06-2.patch",
+    {"status": "fixed", "key": "z3:of_nat-of-bound-variable", "commit": "257ce31",
      "what": "solve(?x::nat. ~(of_nat x = (of_nat (if x = x then x else 0)::real))) returned True: of_nat of a bound variable became a free real constant"},
-    {"status": "fixed", "key": "z3:function-equation-is-False", "commit": "fixes/C06-3.patch",
+    {"status": "fixed", "key": "z3:function-equation-is-False", "commit": "d7f7591",
      "what": "solve(f = g --> false) and solve(~(f = g)) returned True for f, g :: nat => nat: == on Z3 function declarations is syntactic"},
-    {"status": "fixed", "key": "z3:same-name-two-types", "commit": "fixes/C06-4.patch",
+    {"status": "fixed", "key": "z3:same-name-two-types", "commit": "9c52983",
      "what": "solve((x::nat) = 0 --> (x::int) = 0) returned True: both variables became the Z3 constant x of sort Int"},
-    {"status": "fixed", "key": "sympy:structural-disequality", "commit": "fixes/C06-5.patch",
+    {"status": "fixed", "key": "sympy:structural-disequality", "commit": "8b2092f",
      "what": "sympywrapper.solve_goal(~((x + 1) * (x + 1) = x * x + 2 * x + 1)) returned True: lhs != rhs is syntactic"},
-    {"status": "fixed", "key": "sympy:nat-subtraction", "commit": "fixes/C06-6.patch",
+    {"status": "fixed", "key": "sympy:nat-subtraction", "commit": "bcc78a1",
      "what": "solve_goal(~((2::nat) - 3 = 0)) and solve_goal((3::nat) - 5 < 0) returned True: nat subtraction not truncated"},
-    {"status": "fixed", "key": "sympy:division-by-zero", "commit": "fixes/C06-7.patch",
+    {"status": "fixed", "key": "sympy:division-by-zero", "commit": "fb9ee5d",
      "what": "solve_goal(x / x = 1), solve_with_interval(x / x >= 1, x Mem [0,1]), solve_with_interval(~(1 / x = 0), x Mem [-1,1]) returned True: SymPy's x/x = 1 and 1/0 = zoo against HOL's x / 0 = 0"},
-    {"status": "fixed", "key": "z3:real-literals-as-python-numbers", "commit": "fixes/C06-8.patch",
+    {"status": "fixed", "key": "z3:real-literals-as-python-numbers", "commit": "928e63b",
      "what": "solve((if p then (1::real) else 3) / 2 = (if p then 0 else 1)) returned True (integer division on sort Int) and solve(~((2::real) / 6 = 1 / 3)) returned True (Python float division)"},
 ]
